@@ -74,6 +74,9 @@ def run_one(ck, prog):
             ok_examined = True
     ck.ob("C05.1", "clone-result-examined", ok_examined, fn=T.SPAWN, site=ctx.site(cb),
           detail="the value returned by __clone (the new tid, or -errno) is never compared: when the thread cannot be created (EAGAIN at the thread limit) spawn still returns Ok(handle) and join waits forever on an exit word nobody will clear")
+    # one attempt: whatever the kernel answers comes back to the caller (a retry loop never returns while the limit that refused the thread lasts)
+    ck.ob("C05.1", "clone-attempted-once", not cfg.in_cycle(cb), fn=T.SPAWN, site=ctx.site(cb),
+          detail="the clone call sits in a loop: when the kernel keeps refusing (EAGAIN at a task limit) spawn never returns instead of returning the error")
     # the handle is only built after the success side
     builds = [b["id"] for b in sp["blocks"] for s in b["stmts"] if s["k"] == "assign" and s["rv"]["k"] == "agg" and (s["rv"].get("adt") or "").endswith("JoinHandle")]
     ck.ob("C05.1", "handle-built-after-clone", bool(builds) and all(cfg.dominates(cb, b) for b in builds), fn=T.SPAWN, detail="the JoinHandle must be built after the clone call")
